@@ -22,13 +22,9 @@ THEOREMS = [
     "FP.Props.C20.built_graph_distinct",
     "FP.Props.C20.constraints_spec",
     "FP.Props.C20.split_lossless",
-    "FP.Props.C20.malformed_rejected_partial",
-    "FP.Props.C20.malformed_rejected_false",
-    "FP.Props.C20.zero_vertex_accepts_anything",
-    "FP.Props.C20.wConstraint_accepted",
-    "FP.Props.C20.wEdge_accepted",
-    "FP.Props.C20.wConstraint_malformed",
-    "FP.Props.C20.wEdge_malformed",
+    "FP.Props.C20.malformed_rejected",
+    "FP.Props.C20.wConstraint_rejected",
+    "FP.Props.C20.wEdge_rejected",
     "FP.Props.C20.counts_match",
     "FP.Props.C20.leading_lines_ignored",
     "FP.Props.C20.no_header_no_graphs",
@@ -49,16 +45,16 @@ RULE = ("file descriptions generated directly: 1-4 blocks; per block 1-3 header 
         "graphs without source or sink, random line soups. A case is non-trivial iff it is a distinct file text with "
         "at least one edge line or one '#S' line.")
 MODEL_SCOPE = ("modelled: read_graph (header scan, '#S' duplicate filter, id, blank skipping, vertex-count line, "
-               "zero-vertex early return, edge loop, add_edge overwrite semantics, constraint validation, n/m, the "
+               "zero-vertex branch (ValueError on constraints / data lines, n=m=w=0), edge loop, add_edge overwrite semantics, constraint validation, n/m, the "
                "source/sink ValueError of stDiGraph) and read_graphs (block splitting). Not modelled: characters "
                "(str.strip/lstrip/split/startswith), int()/float() literal recognition, the value of get_width() "
                "(checked by the width oracle instead), file I/O and newline translation.")
 TRUSTED = ["the line classifier `classify` in harness/props/c20.py uses str.lstrip/strip/split/startswith exactly as "
            "graphutils.read_graph does (pinned by the K1 comparison on every generated file)",
            "int()/float() tables are produced by the running CPython"]
-ASSUMPTIONS = ["for graphs without source or sink the model raises as stDiGraph documents; the code's own test "
-               "(`out_edges(self.source)` on a string that is not a node iterates over its characters) sometimes "
-               "accepts them — checked by a separate oracle (site AbstractSourceSinkGraph), outside C20's quantifier",
+ASSUMPTIONS = ["graphs without source or sink: the model raises as stDiGraph documents; a separate oracle (site "
+               "AbstractSourceSinkGraph) checks that no graph without source/sink is accepted by stDiGraph (defect "
+               "fixed by 49fd43a, the oracle stays)",
                "files are ASCII text with '\\n' line ends (universal-newline translation is not exercised)",
                "the graph of every non-zero block has at least one source and one sink (otherwise read_graph raises "
                "ValueError from stDiGraph; modelled, exercised in the quirk stream)"]
@@ -124,6 +120,10 @@ def exc_kind(e):
         return "missingCount"
     if m.startswith("invalid literal for int()"):
         return "badCount"
+    if "has 0 vertices but declares subpath constraints" in m:
+        return "zeroWithConstraints"
+    if "has 0 vertices but contains the line" in m:
+        return "zeroWithData"
     if m.startswith("Invalid edge format"):
         return "badEdgeFormat"
     if m.startswith("could not convert string to float"):
@@ -140,7 +140,8 @@ def graph_obs(G):
             "edges": [[u, v, canon_float(w)] for u, v, w in G.edges(data="flow")],
             "id": G.graph.get("id"),
             "constraints": [[[u, v] for (u, v) in c] for c in G.graph.get("constraints", [])],
-            "n": G.graph.get("n"), "m": G.graph.get("m"), "w": "w" in G.graph}
+            "n": G.graph.get("n"), "m": G.graph.get("m"),
+            "w": None if "w" not in G.graph else ("0" if G.graph["w"] == 0 else "oracle")}
 
 
 def with_file(text, fn):
@@ -532,12 +533,9 @@ def oracle_wellformed(ctx, text, exps, res):
         if cons != e["constraints"]:
             bad.append((f"block {bi}: constraints {cons} != distinct '#S' lines {e['constraints']}", SITE))
         if e["zero"]:
-            h = ctx.rep.suite("oracle.wellformed")["histogram"]
-            label = "zero-vertex block: n/m/w keys " + ("present" if any(k in G.graph for k in "nmw") else "absent")
-            h[label] = h.get(label, 0) + 1
-            for k in ("n", "m"):
-                if k in G.graph and G.graph[k] != 0:
-                    bad.append((f"block {bi}: stored {k}={G.graph[k]} on a zero-vertex block", SITE))
+            for k in ("n", "m", "w"):
+                if G.graph.get(k) != 0 or isinstance(G.graph.get(k), bool):
+                    bad.append((f"block {bi}: zero-vertex block stores {k}={G.graph.get(k)!r}, expected 0", SITE))
             continue
         if G.graph.get("n") != len(e["nodes"]) or G.graph.get("n") != G.number_of_nodes():
             bad.append((f"block {bi}: stored n={G.graph.get('n')} but {len(e['nodes'])} nodes", SITE))
@@ -639,10 +637,10 @@ def check_wellformed(ctx, suite, lines, exps, do_k1=True):
     return res, not bad
 
 
-# the concrete witnesses of FP.Props.C20.malformed_rejected_false (same files, replayed on the real code)
+# the regression files of FP.Props.C20.wConstraint_rejected / wEdge_rejected (accepted before fix 1264962 of /repo)
 WITNESSES = [
-    ("constraint-absent-edge", "# g\n#S a b\n0\n", "Lean witness wConstraint"),
-    ("garbage-line", "# g\n0\na b\n", "Lean witness wEdge"),
+    ("constraint-absent-edge", "# g\n#S a b\n0\n", "Lean regression file wConstraint"),
+    ("garbage-line", "# g\n0\na b\n", "Lean regression file wEdge"),
 ]
 
 QUIRKS = [
@@ -661,8 +659,11 @@ QUIRKS = [
     "# g\n3\na b 1\nb a 2\n",                   # cycle: no source
     "# g\n3\na a 1\n",
     "# g\n3\na b 1\nb b 2\n",
-    "# h\n3\na b 3\na a 2\nb c 2\n",       # no source, yet accepted: node 'c' is a character of "source_<id>"
-    "# g\n0\na b 1\n",                          # vertex count 0 drops the edges
+    "# h\n3\na b 3\na a 2\nb c 2\n",       # no source; was accepted before fix 49fd43a ('c' in "source_<id>")
+    "# h\n2\n0 1 1\n1 0 1\n",                 # cycle on digit-named nodes (digits of "source_<id>")
+    "# g\n0\na b 1\n",                          # vertex count 0 with an edge line: ValueError since 1264962
+    "# g\n#S a\n#S\n0\n\n  \n",                  # zero-vertex block with '#S' lines that define no constraint: fine
+    "# g\n#S a b\n0\nx\n",                      # both new raises apply: the constraint one comes first
     "# g\n0\n# h\n1\na b 1\n",
     "# only a header\n",
     "# g\n\n\n",
@@ -697,7 +698,7 @@ def run(ctx):
             continue
         k1(ctx, "corpus", text, nontrivial=True, hist=["repo test file" if "tests" in str(p) else "corpus"],
            lines=file_lines(text))
-    # ---- the Lean counterexamples replayed on the real code
+    # ---- the Lean regression files replayed on the real code
     for kind, text, name in WITNESSES:
         check_corruption(ctx, "witness", kind, text.splitlines(keepends=True), True, name)
     # ---- quirk stream (model vs code only)
